@@ -121,10 +121,10 @@ def simple_set(rng, case_tag, nlang=1, ncap=None, below_h=24, grid=1, sorted_=Tr
 # ------------------------------------------------------------------------------- rich sets (styles, layouts)
 
 CLASS_NAMES = ['p', 'default', 'hl', 'speaker', 'bottom', 'r0', 'r1', 'r12', 'a&b', 'x"y', "q'z", '<z>',
-               'c 1', 'Ünï', 'encc', 'span', 'sync']
+               'c 1', 'Ünï', 'encc', 'span', 'sync', 'a<b', 'x+y=z']      # the last two: a lone '<' among plain characters
 STYLE_VALUES = {
-    'color': ['white', 'red', '#ff0000', 'rgb(1,2,3)', 'a&b', 'x"y', '<c>'],
-    'font-family': ['monospace', 'Arial', '"Times New Roman", serif', 'A & B', "it's", '<ff>'],
+    'color': ['white', 'red', '#ff0000', 'rgb(1,2,3)', 'a&b', 'x"y', '<c>', 'c<d'],
+    'font-family': ['monospace', 'Arial', '"Times New Roman", serif', 'A & B', "it's", '<ff>', 'Less<More', 'a+b-c=d'],
     'font-size': ['1c', '12px', '100%', '1&2'],
     'text-align': ['left', 'center', 'right', 'start', 'end'],
     'display-align': ['before', 'center', 'after'],
@@ -161,7 +161,7 @@ def rich_set(rng, tag, layout_fn=None, nlang=None, levels=('set', 'lang', 'capti
     if names and rng.random() < 0.3:
         styles[names[0]]['class'] = rng.choice(names)
     nlang = nlang or rng.choice([1, 1, 2, 3])
-    lang_pool = LANGS + (['en&"<', "fr'>", 'x y'] if weird_names else [])
+    lang_pool = LANGS + (['en&"<', "fr'>", 'x y', 'x<y'] if weird_names else [])
     langs = rng.sample(lang_pool, nlang)
 
     def maybe(level):
